@@ -25,7 +25,7 @@ for mod in ("inference.system_w_z3", "inference.lex_inf_z3"):
         f"{mod}:makeOptimizer",
         params={},
         returns=TSolverT,
-        ensures=lambda c, r: [c.A(r) == L.FULL],
+        ensures=lambda c, r: [c.A(r) == L.FULL, c.S(r) == L.LForm.nil],
         properties=["C03", "C04"],
     )
 
@@ -140,17 +140,6 @@ WREC_AXIOMS.append(L.Forall(
 ))
 
 Contract(
-    "inference.system_w_z3:SystemWZ3.get_all_xi_i",
-    params={"self": WZ, "opt": TSolverT, "part": TList(TCnd)},
-    returns=SSC,
-    ensures=lambda c, r: [r.t == MinFam(c.old.A(c.old.opt), c.part.t)],
-    modifies=["opt"],
-    raises={"TimeoutError": lambda c: z3.BoolVal(True)},
-    trusted=True,
-    note="ASSUMED (TB-z3 MaxSAT optimum + blocking clauses): returns exactly the inclusion-minimal falsification sets "
-    "of `part` over the optimizer's hard set; may leave extra hard/soft constraints behind (callers pop); bounded by C03/C15 modules",
-)
-Contract(
     "inference.system_w_z3:any_subset_of_all",
     params={"A": SSC, "B": SSC},
     returns=TBool,
@@ -171,6 +160,7 @@ def _w_inv_outer(s, j, pre):
     k = z3.Int("_wo_k")
     return [
         s.A(s.opt) == H,
+        s.S(s.opt) == L.LForm.nil,
         L.Forall(
             [k],
             [LCS.at(lst, k)],
@@ -187,8 +177,8 @@ Contract(
     "inference.system_w_z3:SystemWZ3._rec_inference",
     params={"self": WZ, "opt": TSolverT, "partition_index": TInt, "query": TCnd},
     returns=TBool,
-    requires=lambda c: _idx_ok(c) + [AtLevelW(c.A(c.opt))],
-    ensures=lambda c, r: [r.t == WREC(_Pz(c), c.query.t, c.old.A(c.old.opt), c.partition_index.t), c.A(c.opt) == c.old.A(c.old.opt)],
+    requires=lambda c: _idx_ok(c) + [AtLevelW(c.A(c.opt)), c.S(c.opt) == L.LForm.nil],
+    ensures=lambda c, r: [r.t == WREC(_Pz(c), c.query.t, c.old.A(c.old.opt), c.partition_index.t), c.A(c.opt) == c.old.A(c.old.opt), c.S(c.opt) == L.LForm.nil],
     raises={"TimeoutError": lambda c: z3.BoolVal(True)},
     modifies=["opt"],
     fuel=3,
@@ -287,17 +277,6 @@ LREC_AXIOMS += [
     ),
 ]
 
-Contract(
-    "inference.lex_inf_z3:LexInfZ3.get_all_xi_i",
-    params={"self": LZ, "opt": TSolverT, "part": TList(TCnd)},
-    returns=SSC,
-    ensures=lambda c, r: [r.t == MinFam(c.old.A(c.old.opt), c.part.t)],
-    modifies=["opt"],
-    raises={"TimeoutError": lambda c: z3.BoolVal(True)},
-    trusted=True,
-    note="ASSUMED, as SystemWZ3.get_all_xi_i (same code); bounded by module mcsz3",
-)
-
 LCS = L.list_theory(CSet)
 
 
@@ -314,6 +293,8 @@ def _l_inv_outer(s, j, pre):
     return [
         s.A(s.opt_v) == pre.A(pre.opt_v),
         s.A(s.opt_f) == pre.A(pre.opt_f),
+        s.S(s.opt_v) == L.LForm.nil,
+        s.S(s.opt_f) == L.LForm.nil,
         L.Forall([k], [LCS.at(lst, k)], z3.Implies(z3.And(0 <= k, k < j), z3.Not(BA(*a, LCS.at(lst, k)))), "no.earlier.candidate.beats.all"),
     ]
 
@@ -328,6 +309,8 @@ def _l_inv_inner(s, j, pre):
     return [
         s.A(s.opt_v) == Hv,
         s.A(s.opt_f) == Hf,
+        s.S(s.opt_v) == L.LForm.nil,
+        s.S(s.opt_f) == L.LForm.nil,
         s.beats_all.t == True,
         L.Forall(
             [k],
@@ -345,11 +328,13 @@ Contract(
     "inference.lex_inf_z3:LexInfZ3._rec_inference",
     params={"self": LZ, "opt_v": TSolverT, "opt_f": TSolverT, "partition_index": TInt, "query": TCnd},
     returns=TBool,
-    requires=lambda c: _idx_ok(c) + [AtLevelL(c.A(c.opt_v), c.A(c.opt_f))],
+    requires=lambda c: _idx_ok(c) + [AtLevelL(c.A(c.opt_v), c.A(c.opt_f)), c.S(c.opt_v) == L.LForm.nil, c.S(c.opt_f) == L.LForm.nil],
     ensures=lambda c, r: [
         r.t == LREC(_Pz(c), c.query.t, c.old.A(c.old.opt_v), c.old.A(c.old.opt_f), c.partition_index.t),
         c.A(c.opt_v) == c.old.A(c.old.opt_v),
         c.A(c.opt_f) == c.old.A(c.old.opt_f),
+        c.S(c.opt_v) == L.LForm.nil,
+        c.S(c.opt_f) == L.LForm.nil,
     ],
     raises={"TimeoutError": lambda c: z3.BoolVal(True)},
     modifies=["opt_v", "opt_f"],
